@@ -365,7 +365,11 @@ func cmdBatch(args []string) {
 			tr.Property = *prop
 			tr.Violation = h.v
 			origPlans, origIntents := len(tr.Plans), countIntents(tr)
-			min, tries := sim.Minimize(tr, sig, optsFor(*prop), 90*time.Second)
+			mb := 90 * time.Second
+			if len(tr.Plans) > 1000 {
+				mb = 300 * time.Second // a long run replays in 20-50 s: give the minimiser room for more than a handful of candidates
+			}
+			min, tries := sim.Minimize(tr, sig, optsFor(*prop), mb)
 			// confirm the minimised file fails identically in a fresh process
 			min.Note = fmt.Sprintf("minimised from %d heights/%d intents to %d heights/%d intents in %d replays", origPlans, origIntents, len(min.Plans), countIntents(min), tries)
 			writeTrace(path, min)
